@@ -27,6 +27,23 @@ theorem draw_gap_geometric {k seen : Nat} {v : ℝ} (hk : 0 < k) (hks : k ≤ se
     rw [div_lt_one hs]; exact_mod_cast Nat.lt_succ_of_le hks
   exact Pds.Props.C05.gap_geometric_law ⟨by linarith [hv.2], by linarith [hv.1]⟩ ⟨hp0, hp1⟩ s
 
+/-- the gap is zero — the next item is accepted — exactly when the uniform draw falls below the acceptance
+probability `k / (seen + 1)` -/
+theorem draw_gap_zero_iff {k seen : Nat} {v : ℝ} (hk : 0 < k) (hks : k ≤ seen) (hv : 0 ≤ v ∧ v < 1) :
+    reservoir_draw_gap k seen v = 0 ↔ v < (k : ℝ) / ((seen + 1 : ℕ) : ℝ) := by
+  have h1 := draw_gap_geometric hk hks hv 1
+  constructor
+  · intro h0
+    by_contra hc
+    have : 1 ≤ reservoir_draw_gap k seen v := h1.mpr (by simp only [pow_one]; linarith [not_lt.mp hc])
+    omega
+  · intro hlt
+    by_contra hc
+    have : 1 ≤ reservoir_draw_gap k seen v := Nat.one_le_iff_ne_zero.mpr hc
+    have := h1.mp this
+    simp only [pow_one] at this
+    linarith
+
 /-- `ReservoirSampling::add` as translated (three phases, the order of the RNG requests, the slot writes)
 is the model's `add`, for every RNG interface and state -/
 theorem add_translated {R : Type} (I : Reservoir.RngI R) (s : Reservoir.St R) (x : Nat) (hk : s.k * 4 < 2 ^ 64) :
